@@ -37,7 +37,7 @@ func (e *Encoder) Encode(v interface{}) error {
 // EncodeWithOption call Encode with EncodeOption.
 func (e *Encoder) EncodeWithOption(v interface{}, optFuncs ...EncodeOptionFunc) error {
 	ctx := encoder.TakeRuntimeContext()
-	ctx.Option.Flag = 0
+	*ctx.Option = encoder.Option{} // options of an earlier call must not leak into this one
 
 	err := e.encodeWithOption(ctx, v, optFuncs...)
 
@@ -48,7 +48,7 @@ func (e *Encoder) EncodeWithOption(v interface{}, optFuncs ...EncodeOptionFunc) 
 // EncodeContext call Encode with context.Context and EncodeOption.
 func (e *Encoder) EncodeContext(ctx context.Context, v interface{}, optFuncs ...EncodeOptionFunc) error {
 	rctx := encoder.TakeRuntimeContext()
-	rctx.Option.Flag = 0
+	*rctx.Option = encoder.Option{} // options of an earlier call must not leak into this one
 	rctx.Option.Flag |= encoder.ContextOption
 	rctx.Option.Context = ctx
 
@@ -113,7 +113,7 @@ func (e *Encoder) SetIndent(prefix, indent string) {
 
 func marshalContext(ctx context.Context, v interface{}, optFuncs ...EncodeOptionFunc) ([]byte, error) {
 	rctx := encoder.TakeRuntimeContext()
-	rctx.Option.Flag = 0
+	*rctx.Option = encoder.Option{} // options of an earlier call must not leak into this one
 	rctx.Option.Flag = encoder.HTMLEscapeOption | encoder.NormalizeUTF8Option | encoder.ContextOption
 	rctx.Option.Context = ctx
 	for _, optFunc := range optFuncs {
@@ -141,7 +141,7 @@ func marshalContext(ctx context.Context, v interface{}, optFuncs ...EncodeOption
 func marshal(v interface{}, optFuncs ...EncodeOptionFunc) ([]byte, error) {
 	ctx := encoder.TakeRuntimeContext()
 
-	ctx.Option.Flag = 0
+	*ctx.Option = encoder.Option{} // options of an earlier call must not leak into this one
 	ctx.Option.Flag |= (encoder.HTMLEscapeOption | encoder.NormalizeUTF8Option)
 	for _, optFunc := range optFuncs {
 		optFunc(ctx.Option)
@@ -168,7 +168,7 @@ func marshal(v interface{}, optFuncs ...EncodeOptionFunc) ([]byte, error) {
 func marshalNoEscape(v interface{}) ([]byte, error) {
 	ctx := encoder.TakeRuntimeContext()
 
-	ctx.Option.Flag = 0
+	*ctx.Option = encoder.Option{} // options of an earlier call must not leak into this one
 	ctx.Option.Flag |= (encoder.HTMLEscapeOption | encoder.NormalizeUTF8Option)
 
 	buf, err := encodeNoEscape(ctx, v)
@@ -192,7 +192,7 @@ func marshalNoEscape(v interface{}) ([]byte, error) {
 func marshalIndent(v interface{}, prefix, indent string, optFuncs ...EncodeOptionFunc) ([]byte, error) {
 	ctx := encoder.TakeRuntimeContext()
 
-	ctx.Option.Flag = 0
+	*ctx.Option = encoder.Option{} // options of an earlier call must not leak into this one
 	ctx.Option.Flag |= (encoder.HTMLEscapeOption | encoder.NormalizeUTF8Option | encoder.IndentOption)
 	for _, optFunc := range optFuncs {
 		optFunc(ctx.Option)
